@@ -19,8 +19,10 @@ def mk_gen(name, path, prio, out, reload, safe):
 
     def run(self, device):
         yield out
-    cls = type(name, (Entire,), {"prio": prio, "path": lambda s, d: path, "run": run, "reload": lambda s, d: reload,
-                                 "is_safe": lambda s, d: safe, "TAGS": []})
+    attrs = {"path": lambda s, d: path, "run": run, "reload": lambda s, d: reload, "is_safe": lambda s, d: safe, "TAGS": []}
+    if prio != 100:
+        attrs["prio"] = prio            # a generator that declares no priority gets the class default (100)
+    cls = type(name, (Entire,), attrs)
     return cls(storage=genrun.STORAGE)
 
 
@@ -64,7 +66,7 @@ def run(ctx):
         gs, used = [], set()
         for gi in range(ng):
             p = rnd.choice(paths)
-            pr = rnd.choice([x for x in range(1, 9) if (p, x) not in used])
+            pr = rnd.choice([x for x in (0, 0, 1, 2, 3, 5, 8, 50, 99, 100, 101) if (p, x) not in used])      # 0 and the class default 100 included
             used.add((p, pr))
             gs.append({"path": p, "prio": pr, "out": rnd.choice(outs), "reload": rnd.choice(["", "reload %d" % gi, "systemctl restart x"]),
                        "safe": rnd.random() < 0.6, "name": "G%d" % gi})
